@@ -9,7 +9,8 @@ FIRST_MISSED = {"C08-dot-absent-left", "C12-unsparsify-full-record-passthrough",
                 "C15-pad-multibyte-padstring", "C20-close-drops-flush-error", "C20-lru-append-after-evict",
                 "C05-repeat-shared-record", "C06-json-int-fastpath", "C09-sort-udf-slicesfunc", "C09-sort-verb-tie-text",
                 "C10-mergefields-collapse-percentile-reuse", "C10-stats1-mode-running-winner", "C11-grep-flatten-inplace",
-                "C12-nest-explode-empty-value", "C12-subs-regex-alternation"}
+                "C12-nest-explode-empty-value", "C12-subs-regex-alternation",
+                "C18-dkvp-ips-regex-empty-pair", "C18-strmatchx-first-match-optional-group"}
 rows = []
 for d in sorted(os.listdir(S)):
     p = os.path.join(S, d)
